@@ -112,6 +112,8 @@ func writeCase(w *lineWriter, bc *builtCorpus, in []byte) (impl string, r classi
 			fmt.Fprintf(&sb, "%d:%s", d.Op, joinInts(d.IDs, ","))
 		}
 		w.printf("D %s %d %d %s\n", runesDot(call.Key), call.Start, call.End, sb.String())
+		// stage-level observation: what score() returned for this candidate (confidence bits, start/end offsets)
+		w.printf("S %s %d %d %d %d %d\n", runesDot(call.Key), call.Start, call.End, math.Float64bits(call.Conf), call.SO, call.EO)
 		if call.Slow {
 			slow = true
 		}
